@@ -52,6 +52,7 @@ def jobs(tier, seed):
             js.append({"sub": "comb-cyclic", "I": I, "G": G, "chunk": i, "of": n})
         js.append({"sub": "comb-cyclic", "I": I, "G": G, "chunk": 0, "of": n, "hashseed": seeds[-1], "primary": False})
     js.append({"sub": "comb-bb", "chunk": 0, "of": 1})
+    js.append({"sub": "comb-selfloop", "chunk": 0, "of": 1})
     js += [{"sub": "history", "chunk": i, "of": 4} for i in range(4)]
     na = 16 if tier == "quick" else 48
     for i in range(na):
@@ -280,6 +281,32 @@ def check_unknown(acc, c, case):
         acc.violation("assume", f"unknown-node-wrong-exception:{common.exc_name(e)}", cc, repr(e))
 
 
+def selfloop_descs():
+    """Gates that list themselves in their fan-in (legal and lint-clean: g = and(a, g))."""
+    for t in space.ALL_GATES:
+        for others in ([], ["a"], ["a", "b"], ["h"]):
+            if t in space.SINGLE and others:
+                continue
+            nodes = [["a", "input", [], False], ["b", "input", [], False], ["h", "xor", ["a", "b"], False]]
+            nodes.append(["g", t, others + ["g"], True])
+            yield {"name": "top", "nodes": nodes}
+            nodes2 = [list(x) for x in nodes[:3]] + [["g", t, others + ["g"], False], ["o", "nand", ["g", "b"], True]]
+            yield {"name": "top", "nodes": nodes2}
+
+
+def run_selfloop(job, acc):
+    for desc in selfloop_descs():
+        case = {"kind": "comb", "desc": desc}
+        c = space.build(desc)
+        acc.states += 1
+        acc.nontrivial += 1
+        want = check_cnf(acc, c, case, "comb-selfloop")
+        if want is not None:
+            for a in ({}, {"g": True}, {"g": False}, {"a": True, "g": True}):
+                check_solve(acc, c, case, "comb-selfloop", want, a, ANSWERS_FEW)
+        acc.sample(case)
+
+
 def run_assume(job, acc):
     import circuitgraph as cg
 
@@ -454,6 +481,8 @@ def run(job):
         run_comb(job, acc)
     elif sub == "comb-bb":
         run_bb(job, acc)
+    elif sub == "comb-selfloop":
+        run_selfloop(job, acc)
     elif sub == "assume":
         run_assume(job, acc)
     elif sub == "alias":
